@@ -299,4 +299,4 @@ def run():
         "`~=` (regex search), strings and dates are outside the value model: text correspondence, table obligations and the fncall differential oracle (two executions compared, no documented value) only",
         "SQLite returns the rows of an unordered single-table scan in insertion order",
     ]
-    ck.finish(TRUSTED, "streams: parse = random operator token sequences (model parser vs prql_to_pl); sqltext = model SQL text vs compile, byte-identical, per dialect; e2e = compiled SQL executed on SQLite vs eval_doc, per (expression, dialect): all 861 (parent, position, child) triples over 16 binary + 3 unary operators + case + in-range, plus random trees of depth <= 4; fncall = every math.* / text.* template x parameter position x 17 operator children: model text vs compile, and emitted text vs hole-parenthesised reference executed on SQLite; a case is distinct by its PRQL text and dialect; non-trivial = the program compiled and at least one row was comparable")
+    ck.finish(TRUSTED, "streams: rq = the hook's view of the RQ expression before / after the Normalizer vs seval (expand e) / normalize, per compiled expression and dialect; parse = random operator token sequences (model parser vs prql_to_pl); sqltext = model SQL text vs compile, byte-identical, per dialect; e2e = compiled SQL executed on SQLite vs eval_doc, per (expression, dialect): all 861 (parent, position, child) triples over 16 binary + 3 unary operators + case + in-range, plus random trees of depth <= 4; fncall = every math.* / text.* template x parameter position x 17 operator children: model text vs compile, and emitted text vs hole-parenthesised reference executed on SQLite; a case is distinct by its PRQL text and dialect; non-trivial = the program compiled and at least one row was comparable")
